@@ -344,6 +344,8 @@ class ShapeChecker:
                     return None, f"index [1] on CHOICE {cur.get('_name')} but the alternative in force is unknown"
                 cur = S.resolve(alts[name], cur.get("_module"))
                 tpl = tpl.elts[1]
+            elif kind == "CHOICE" and k == 0:
+                return {"type": "CHOICENAME", "_name": cur.get("_name")}, None      # the alternative's name
             elif kind == "CHOICE" and isinstance(k, str):
                 return None, (f"{cur.get('_name', 'CHOICE')} is a CHOICE: a decoded/encoded value is the tuple (alternative, value); "
                               f"subscripting it with the string `{k}` raises TypeError / never matches")
